@@ -159,6 +159,20 @@ def euler1d_records(rnd, tier):
                         toks.append(0 if (B[0] == rho and B[1] == -u and B[2] == p) else core.ULP_CAP)
                     if name == "dirichlet":
                         toks.append(0 if list(B) == [float(x) for x in prm["prim"]] else core.ULP_CAP)
+                # "on either side of the domain": the state returned for the other side and the mirrored interior state (same
+                # parameters; a Dirichlet velocity mirrored too) is the mirror image of this one
+                if ok:
+                    try:
+                        mprm = dict(prm, type=name)
+                        if name == "dirichlet":
+                            mprm["prim"] = [prm["prim"][0], -prm["prim"][1], prm["prim"][2]]
+                        with np.errstate(all="ignore"):
+                            om = model.namedBC(name, -dir_, [np.array([rho]), np.array([-u]), np.array([p])], mprm)
+                        Bm = tuple(float(np.ravel(x)[0]) for x in om)
+                        vsm = max(abs(u), a, abs(B[1]))
+                        toks += [u_tok(Bm[0], B[0], B[0]), u_tok(-Bm[1], B[1], vsm), u_tok(Bm[2], B[2], B[2])]
+                    except Exception:
+                        toks.append(core.ULP_CAP)
                 r["toks"] = toks or [0]
                 if exact and ok and name in ("insub", "insup", "outsub", "outsub_prim", "outsub_qtot", "outsup", "sym"):
                     rb, ri = rationals(B), rationals(I)
